@@ -28,6 +28,17 @@ Proof.
     + apply IH; [cbn in Hl; lia|assumption].
 Qed.
 
+(* the particle / spiral move: whatever the velocity (huge, negative, non-finite), the result is in the box *)
+Lemma move_part_in_box (s : space) : dims_ok s -> forall p velo, length p = length s -> length velo = length s ->
+  in_box s (move_part s p velo).
+Proof.
+  unfold in_box, move_part, max_positions. induction 1 as [|dim s Hd Hs IH]; intros p velo Hp Hv.
+  - destruct p; [constructor|discriminate].
+  - destruct p as [|z p]; [discriminate|]. destruct velo as [|x velo]; [discriminate|]. cbn. constructor.
+    + lia.
+    + apply IH; cbn in *; lia.
+Qed.
+
 Section CoreFacts.
   Variable sp : space.
   Variable cons : values -> bool.
